@@ -1,6 +1,7 @@
 (* Props/C07Ext.v -- property C07, extension: the gaps (a) and (e) listed before
    C07_decode_partial in Props/C07.v are closed, and dump_as_parsed is proved.
-   Statements only; proofs in Proofs/DecodeSpec.v and Proofs/DecodeDumpSpec.v.
+   Statements only; proofs in Proofs/DecodeSpec.v, Proofs/DecodeDumpSpec.v and
+   Proofs/DecodeRoundSpec.v.
 
    Vocabulary (Proofs/DecodeSpec.v, section 0; everything is a closed-form
    function of a form's token list ts and an assignment a of field texts):
@@ -37,7 +38,7 @@
 From Coq Require Import ZArith QArith List Bool String Ascii.
 From Iso Require Import Spec.Cal Spec.Instant Model.Num Model.Helpers Model.Duration Model.TimePoint
   Model.Forms Model.Parse Model.Dump Spec.FormText Proofs.MatchSpec gen.Grammar Model.DriverText
-  Proofs.RoundTripSpec Proofs.DecodeSpec.
+  Proofs.RoundTripSpec Proofs.DecodeSpec Proofs.DecodeDumpSpec Proofs.DecodeRoundSpec.
 Import ListNotations.
 Local Open Scope string_scope.
 
@@ -112,6 +113,126 @@ Theorem C07_decode_date_full : forall md cfg fd ad asp,
 Proof. exact decode_date_full. Qed.
 Print Assumptions C07_decode_date_full.
 
+(* parse with dump_as_parsed, then str() *)
+Definition pstr (md : mode) (cfg : pcfg) (s : string) : option dres :=
+  match parse_text md cfg s true with
+  | POk p => match ptp_to_tp p with Some q => Some (do_dump md (p_ned p) q (p_fmt p)) | None => None end
+  | PErr _ => None end.
+
+(* 3. DUMP_AS_PARSED.  Under the hypotheses of C07_decode_full and validity of
+      the assigned values: the parser returns a point p whose dump format is the
+      concatenated expression text, and writing p out with that format (what
+      str(p) does: the dumper with p's number of expanded year digits) gives
+      the input text back, with the decimal field -- if the time form has one --
+      in the dumper's form: canon f = f without trailing zeros, "0" when f is
+      all zeros (canon_env replaces the three decimal fields by their canon).
+      Three side conditions, each NECESSARY (C07_dump_as_parsed_refuted, checked
+      on the package):
+        - a year written with sign "-" is not zero  ("-000000..." is read as year
+          0 and written "+000000...");
+        - a zone written with sign "-" is not zero  ("-00:00" is written "+00:00");
+        - dec_fits: the fraction has at most six digits after removing trailing
+          zeros (the dumper prints six, rounding: ",1234567" -> ",123457"). *)
+Theorem C07_dump_as_parsed : forall md cfg fd gd ft zo ad atm az,
+  In (c_ned cfg) [0; 2; 3]%Z ->
+  let dfs := date_forms_of (c_ned cfg) in
+  In fd (date_search dfs cfg ["reduced"]) -> f_type fd = "complete" ->
+  hit (date_search dfs cfg ["reduced"]) fd = Some gd ->
+  let bf := bad_formats_of (f_format gd) (f_type gd) in
+  In ft (time_search TIME_FORMS cfg bf ["truncated"]) ->
+  In zo (zone_choices cfg bf ft) ->
+  (c_ned cfg = 0%Z -> binds "expanded_year" (f_parse fd) = false) ->
+  wf_assign (f_parse fd) ad = true -> wf_assign (f_parse ft) atm = true -> zo_wf zo az = true ->
+  let q := mkTp (x_date (f_parse fd) ad) (x_tod (f_parse ft) atm) (x_zone cfg zo az) in
+  valid_tp md q = true ->
+  (fget "year_sign" (f_parse fd) ad = Some "-" -> x_year (f_parse fd) ad <> 0%Z) ->
+  (fget "time_zone_sign" (zo_parse zo) az = Some "-" -> x_zone cfg zo az <> mkZone 0 0) ->
+  dec_fits (f_parse ft) atm = true ->
+  exists p,
+    parse_text md cfg (render_toks (f_parse fd) ad ++ "T" ++ render_toks (f_parse ft) atm ++ zo_text zo az) true = POk p /\
+    ptp_to_tp p = Some q /\ p_fmt p = f_expr fd ++ "T" ++ f_expr ft ++ zo_expr zo /\
+    do_dump md (p_ned p) q (p_fmt p) =
+    DOk (render_toks (f_parse fd) ad ++ "T" ++ render_toks (f_parse ft) (canon_env atm) ++ zo_text zo az).
+Proof. exact dump_as_parsed. Qed.
+Print Assumptions C07_dump_as_parsed.
+
+(* the same for a date alone (complete or reduced form): the input text exactly *)
+Theorem C07_dump_date_as_parsed : forall md cfg fd ad,
+  In (c_ned cfg) [0; 2; 3]%Z ->
+  let dfs := date_forms_of (c_ned cfg) in
+  In fd (date_search dfs cfg []) -> f_type fd = "complete" \/ f_type fd = "reduced" ->
+  mem (f_expr fd) (date_exceptions (c_ned cfg) (c_trunc cfg) []) = false ->
+  (c_ned cfg = 0%Z -> binds "expanded_year" (f_parse fd) = false) ->
+  wf_assign (f_parse fd) ad = true ->
+  let q := mkTp (x_date (f_parse fd) ad) (HMS 0 0 0) (x_zone cfg None []) in
+  valid_tp md q = true ->
+  (fget "year_sign" (f_parse fd) ad = Some "-" -> x_year (f_parse fd) ad <> 0%Z) ->
+  exists p,
+    parse_text md cfg (render_toks (f_parse fd) ad) true = POk p /\
+    ptp_to_tp p = Some q /\ p_fmt p = f_expr fd /\
+    do_dump md (p_ned p) q (p_fmt p) = DOk (render_toks (f_parse fd) ad).
+Proof. exact dump_date_as_parsed. Qed.
+Print Assumptions C07_dump_date_as_parsed.
+
+(* every triple of the tables has what the dump needs: the as-parsed format is
+   split by the dumper into exactly the three templates, each template
+   corresponds token by token to its regex, the group names and widths are the
+   expected ones (closed checks over the regenerated tables) *)
+Theorem C07_asp_tables :
+  forallb (fun n =>
+    forallb (fun fd => negb (String.eqb (f_type fd) "complete") || ((n =? 0)%Z && binds "expanded_year" (f_parse fd)) ||
+      forallb (fun ft => negb (not_trunc ft) ||
+        forallb (fun zo => asp_ok (dump_ned n fd) fd ft zo) all_zos) TIME_FORMS) (date_forms_of n)) [0; 2; 3]%Z = true /\
+  forallb (fun n =>
+    forallb (fun fd => negb (not_trunc fd) || ((n =? 0)%Z && binds "expanded_year" (f_parse fd)) ||
+                       aspd_ok (dump_ned n fd) fd) (date_forms_of n)) [0; 2; 3]%Z = true.
+Proof. exact (conj tables_asp tables_aspd). Qed.
+Print Assumptions C07_asp_tables.
+
+(* whole-number time forms (no decimal group): the input text EXACTLY; a
+   decimal field: up to trailing zeros, precisely *)
+Theorem C07_dump_exact : forall ts a,
+  forallb (fun t => match t with PDigs _ => false | PUnix _ => false | _ => true end) ts = true ->
+  time_names_ok ts = true -> render_toks ts (canon_env a) = render_toks ts a.
+Proof. exact canon_env_other. Qed.
+Print Assumptions C07_dump_exact.
+Theorem C07_canon_spec : forall f,
+  (exists k, (f = canon f ++ zeros k) \/ (canon f = "0" /\ f = zeros k)) /\
+  (strip_zeros f = f -> f <> "" -> canon f = f).
+Proof. exact (fun f => conj (canon_spec f) (canon_id f)). Qed.
+Print Assumptions C07_canon_spec.
+
+(* the dumper's decimal string of n + 0.f is canon f when f has at most six
+   significant digits *)
+Theorem C07_decimal_string : forall n f, (0 <= n)%Z -> digits_plus f = true -> frac6 f = true ->
+  decimal_string (qadd (qz n) (frac_of f)) = canon f.
+Proof. exact decimal_string_frac. Qed.
+Print Assumptions C07_decimal_string.
+
+(* the three side conditions are necessary, and the remaining gaps as facts of
+   the model (all reproduced on the package, see notes/C07EXT_REPORT.md):
+   (c) a sign-prefixed form under num_expanded_year_digits = 0 is MATCHED (its
+       expanded_year group is empty) and int("") raises a plain ValueError;
+   (d) with truncation allowed "-0012" is read as the truncated -YYMM, not as
+       the reduced +XCC. *)
+Example C07_dump_as_parsed_refuted :
+  pstr G (default_cfg 2) "2000-01-01T00:00:00,1234567Z" = Some (DOk "2000-01-01T00:00:00,123457Z") /\
+  pstr G (default_cfg 2) "-0000000101T00Z" = Some (DOk "+0000000101T00Z") /\
+  pstr G (default_cfg 2) "2000-01-01T00:00-00:00" = Some (DOk "2000-01-01T00:00+00:00") /\
+  pstr G (default_cfg 2) "20000101T0000-00" = Some (DOk "20000101T0000+00") /\
+  pstr G (default_cfg 2) "2000-01-01T12:30,500+05" = Some (DOk "2000-01-01T12:30,5+05") /\
+  pstr G (default_cfg 2) "2000-01-01T12:30,000+05" = Some (DOk "2000-01-01T12:30,0+05") /\
+  parse_text G (default_cfg 0) "+20000101T00Z" false = PErr EValue /\
+  parse_text G (default_cfg 0) "-2000-001T00Z" false = PErr EValue /\
+  parse_text G (default_cfg 0) "+2000" false = PErr EValue /\
+  parse_text G (cfg_of 2 true false) "-0012" true =
+    POk (mkPtp (Some 0%Z) (Some 12%Z) None None None None None None None (Some (mkZone 0 0)) true "year_of_century" 0 "-YYMM") /\
+  parse_text G (cfg_of 2 true false) "+0012" true =
+    POk (ptp_of (mkTp (Cal 1200 1 1) (HMS 0 0 0) (mkZone 0 0)) 2 "+XCC") /\
+  parse_text G (cfg_of 2 false false) "-0012" true =
+    POk (ptp_of (mkTp (Cal (-1200) 1 1) (HMS 0 0 0) (mkZone 0 0)) 2 "+XCC").
+Proof. vm_compute. repeat split; reflexivity. Qed.
+
 (* the hypotheses are satisfiable, with non-trivial values; what the two sides
    are on: a week date with decimal seconds and a negative offset under a
    parser with an assumed zone; an impossible week (2021 has 52 weeks); a
@@ -142,6 +263,13 @@ Example C07Ext_ex :
   parse_text G cfg "2020-W53-7T23:59:59,50-09:30" true =
     POk (mkPtp (Some 2020%Z) None None None (Some 53%Z) (Some 7%Z) (Some 23%Q) (Some 59%Q) (Some (119 # 2)%Q)
                (Some (mkZone (-9) (-30))) false "" 0 "CCYY-Www-DThh:mm:ss,tt+hh:mm") /\
+  (* dump_as_parsed: the side conditions hold, the text comes back without the trailing zero *)
+  dec_fits (f_parse F_HMSD_EXT) atm = true /\
+  render_toks (f_parse F_HMSD_EXT) (canon_env atm) = "23:59:59,5" /\
+  pstr G cfg "2020-W53-7T23:59:59,50-09:30" = Some (DOk "2020-W53-7T23:59:59,5-09:30") /\
+  pstr G cfg "2020-W53-7T23:59:59-09:30" = Some (DOk "2020-W53-7T23:59:59-09:30") /\
+  pstr G cfg "1999-12" = Some (DOk "1999-12") /\
+  pstr G (mkCfg 3 false false None false (-3, 0)%Z) "-0012344366T12.250" = Some (DOk "-0012344366T12.25") /\
   (* no zone written: the assumed offset *)
   parse_text G cfg "2020-W53-7T23:59" false =
     POk (ptp_of (mkTp (Wk 2020 53 7) (HMS 23 59 0) (mkZone 5 30)) 0 "") /\
